@@ -103,6 +103,8 @@ uint64_t entropy_draws();
 // ---------------------------------------------------------------- HDF5 cache knob (wrap_h5f.cpp)
 void h5knob_set(int chunk_cache_mode /*0=default,1=none,2=64k*/, int sieve_mode /*0=default,1=off*/);
 uint64_t h5knob_applied();
+void h5knob_mdc(int mode /*0=default 2 MiB adaptive metadata cache,1=fixed 128 KiB,2=fixed 32 KiB*/);
+uint64_t h5knob_mdc_applied();
 void h5knob_tbuf(int mode /*0=default 1 MiB conversion buffer,1=64 KiB,2=16 KiB*/);
 uint64_t h5knob_tbuf_applied();
 void h5_quiet();                // H5Eset_auto off
